@@ -150,6 +150,27 @@ def killBusy (P : Params) (cleanupMs : Nat) : Outcome :=
   if P.grpcStopImmediate ∧ cleanupMs < P.graceMs then ⟨true, false, true, P.waitsForGoroutines, true, P.graceMs⟩
   else ⟨true, P.forceAfterGrace, P.forceAfterGrace, P.forceAfterGrace && P.waitsForGoroutines, false, P.graceMs⟩
 
+/-- fact: `Kill` is serialised by a mutex of its own — a `Kill` that overlaps an earlier one WAITS for it (and then finds
+no runner: the earlier one cleared it at its very end) instead of running the procedure a second time on a protocol
+client the first one has already closed -/
+structure OverlapParams where
+  serialised : Bool
+  deriving DecidableEq, Repr
+
+def OverlapParams.Good (O : OverlapParams) : Prop := O.serialised = true
+instance (O : OverlapParams) : Decidable O.Good := by unfold OverlapParams.Good; exact inferInstance
+
+/-- what has become of the plugin when two overlapping `Kill`s (the second beginning while the first is inside its
+procedure) have both returned.  Not serialised, the later call goes through `killDuring`: closing the closed client
+again reports an error (`closeAgainOk = false`, which is what both protocol clients do), that is taken for a failed
+graceful shutdown, and the plugin is force-killed at once — inside the grace period the first call is granting it. -/
+def overlapped (O : OverlapParams) (P : Params) (proto : Proto) (beh : Beh) (replyLost hasAddr closeAgainOk : Bool) : Outcome :=
+  let first := kill P proto beh replyLost hasAddr true
+  if O.serialised then first
+  else
+    let later := killDuring P proto beh replyLost hasAddr closeAgainOk
+    { first with forced := first.forced || later.forced, cleanedUp := first.cleanedUp && !later.forced }
+
 /-! ### CleanupClients -/
 
 /-- facts about the process-wide list of managed clients -/
